@@ -164,6 +164,10 @@ def pos_table(run, model, rule="C05.pos-table", rule_po="C05.posonly"):
             feas = [p for p in ps if tables.feasible(p, ev)]
             stored = set(any(tt[0] == "idx" and tt[2] == key_t and vt == val_t for tt, vt, n in p.stores) for p in feas)
             want = not is_po
+            # ... and the loop goes on with the next keyword (a `break` / `return` there drops every keyword after it)
+            left = [p for p in feas if p.outcome is None or p.outcome[0] != "stop" or p.outcome[2] is not kw_loop]
+            if left and stored == {want}:
+                stored = {"the loop over the keywords is left early"}
             run.check(stored == {want}, rule_po, "%s[keyword named like a %s parameter]" % (resolver.qual, "positional-only" if is_po else "regular"), "copied into the mapping: %s" % want, "keyword arguments named like a positional-only parameter %s" % ("override the value bound by position" if is_po else "are not copied"), resolver.loc(kw_loop), None, "positional-only=%s" % is_po)
 
 
